@@ -8,6 +8,7 @@ import (
 	"fmt"
 	"io"
 	"sync"
+	"time"
 
 	"google.golang.org/grpc"
 	"google.golang.org/grpc/codes"
@@ -49,7 +50,18 @@ type Relay struct {
 	names     map[[64]byte]string
 	w         *World
 	gen       int
+	// blackUntil: until this virtual time the relay loses every message
+	// it is given (an outage); 0 = none.
+	blackUntil time.Duration
+	// downUntil: until this virtual time the relay is unreachable: every
+	// call fails and the streams that were open are broken.
+	downUntil time.Duration
 }
+
+var errRelayDown = status.Error(codes.Unavailable, "connection refused")
+
+// isDown must be called with r.mu held.
+func (r *Relay) isDown() bool { return r.downUntil > 0 && r.w.s.Now() < r.downUntil }
 
 func newRelay(w *World) *Relay {
 	return &Relay{boxes: map[[64]byte]*box{}, names: map[[64]byte]string{}, w: w}
@@ -85,6 +97,9 @@ func (r *Relay) NewCipherBox(ctx context.Context, in *hashmailrpc.CipherBoxAuth,
 	}
 	r.mu.Lock()
 	defer r.mu.Unlock()
+	if r.isDown() {
+		return nil, errRelayDown
+	}
 	id := sid(in.Desc.StreamId)
 	r.Presented = append(r.Presented, "new:"+r.nameOf(id))
 	if _, ok := r.boxes[id]; ok {
@@ -103,6 +118,9 @@ func (r *Relay) DelCipherBox(ctx context.Context, in *hashmailrpc.CipherBoxAuth,
 	vrt.Point("relay.DelCipherBox")
 	r.mu.Lock()
 	defer r.mu.Unlock()
+	if r.isDown() {
+		return nil, errRelayDown
+	}
 	id := sid(in.Desc.StreamId)
 	r.Presented = append(r.Presented, "del:"+r.nameOf(id))
 	if b, ok := r.boxes[id]; ok {
@@ -129,7 +147,12 @@ func (r *Relay) SendStream(ctx context.Context, _ ...grpc.CallOption) (hashmailr
 	if err := ctx.Err(); err != nil {
 		return nil, err
 	}
-	return &sendStream{r: r, ctx: ctx}, nil
+	r.mu.Lock()
+	defer r.mu.Unlock()
+	if r.isDown() {
+		return nil, errRelayDown
+	}
+	return &sendStream{r: r, ctx: ctx, gen: r.gen}, nil
 }
 
 func (r *Relay) RecvStream(ctx context.Context, in *hashmailrpc.CipherBoxDesc,
@@ -140,9 +163,12 @@ func (r *Relay) RecvStream(ctx context.Context, in *hashmailrpc.CipherBoxDesc,
 		return nil, err
 	}
 	r.mu.Lock()
+	defer r.mu.Unlock()
+	if r.isDown() {
+		return nil, errRelayDown
+	}
 	r.Presented = append(r.Presented, "recv:"+r.nameOf(sid(in.StreamId)))
-	r.mu.Unlock()
-	return &recvStream{r: r, ctx: ctx, id: sid(in.StreamId)}, nil
+	return &recvStream{r: r, ctx: ctx, id: sid(in.StreamId), gen: r.gen}, nil
 }
 
 var _ hashmailrpc.HashMailClient = (*Relay)(nil)
@@ -150,6 +176,7 @@ var _ hashmailrpc.HashMailClient = (*Relay)(nil)
 // ---- write side
 
 type sendStream struct {
+	gen      int // relay generation the stream was opened in
 	r        *Relay
 	ctx      context.Context
 	bound    *box
@@ -169,6 +196,15 @@ func (s *sendStream) Send(m *hashmailrpc.CipherBox) error {
 	r.mu.Lock()
 	defer r.mu.Unlock()
 	if s.rejected != nil {
+		return s.rejected
+	}
+	if r.isDown() || s.gen != r.gen {
+		// the stream was opened before (or during) the relay's downtime
+		if s.bound != nil && s.bound.writerCtx == s.ctx {
+			s.bound.writerCtx = nil
+		}
+		s.bound = nil
+		s.rejected = errRelayDown
 		return s.rejected
 	}
 	r.Seen = append(r.Seen, append([]byte{}, m.Msg...))
@@ -205,6 +241,10 @@ func (s *sendStream) Send(m *hashmailrpc.CipherBox) error {
 		return s.rejected
 	}
 	b.sent++
+	if r.blackUntil > 0 && r.w.s.Now() < r.blackUntil {
+		b.dropped++
+		return nil
+	}
 	b.inflight = append(b.inflight, append([]byte{}, m.Msg...))
 	return nil
 }
@@ -233,6 +273,7 @@ func (s *sendStream) RecvMsg(any) error            { return fmt.Errorf("not supp
 // ---- read side
 
 type recvStream struct {
+	gen    int // relay generation the stream was opened in
 	r      *Relay
 	ctx    context.Context
 	id     [64]byte
@@ -249,6 +290,15 @@ func (s *recvStream) Recv() (*hashmailrpc.CipherBox, error) {
 		r := s.r
 		r.mu.Lock()
 		if s.failed != nil {
+			r.mu.Unlock()
+			return nil, s.failed
+		}
+		if r.isDown() || s.gen != r.gen {
+			if s.bound != nil && s.bound.readerCtx == s.ctx {
+				s.bound.readerCtx = nil
+			}
+			s.bound = nil
+			s.failed = errRelayDown
 			r.mu.Unlock()
 			return nil, s.failed
 		}
@@ -366,6 +416,61 @@ func (r *Relay) heldStreams() (out []struct {
 		}
 	}
 	return
+}
+
+// wipe is a relay restart: every mailbox is gone with what it held; holders
+// of stream ends find out at their next call ("stream not found").
+func (r *Relay) wipe() {
+	r.mu.Lock()
+	defer r.mu.Unlock()
+	for _, id := range r.order {
+		b := r.boxes[id]
+		b.killRead = true
+		select {
+		case b.signal <- struct{}{}:
+		default:
+		}
+	}
+	r.boxes = map[[64]byte]*box{}
+	r.order = nil
+	r.gen++
+}
+
+// outage: for d the relay silently loses everything it is given, and what
+// it was holding in flight is lost as well.
+func (r *Relay) outage(d time.Duration) {
+	r.mu.Lock()
+	defer r.mu.Unlock()
+	r.blackUntil = r.w.s.Now() + d
+	for _, id := range r.order {
+		b := r.boxes[id]
+		b.dropped += len(b.inflight)
+		b.inflight = nil
+	}
+}
+
+// down: the relay is unreachable for d. The mailboxes and what they hold
+// survive (a network partition between both parties and the relay, or a relay
+// that keeps its state), every open stream breaks, every call fails meanwhile.
+func (r *Relay) down(d time.Duration) {
+	r.mu.Lock()
+	defer r.mu.Unlock()
+	r.downUntil = r.w.s.Now() + d
+	r.gen++
+	for _, id := range r.order {
+		b := r.boxes[id]
+		b.readerCtx, b.writerCtx = nil, nil
+		select {
+		case b.signal <- struct{}{}:
+		default:
+		}
+	}
+}
+
+func (r *Relay) boxCount() int {
+	r.mu.Lock()
+	defer r.mu.Unlock()
+	return len(r.boxes)
 }
 
 func (r *Relay) kill(b *box, read bool) {
